@@ -1154,7 +1154,10 @@ next:
 	}
 	iter.index.bucketLk.RUnlock()
 
+	// The pools are written by Put, Update and Remove under bucketLk.
+	iter.index.bucketLk.RLock()
 	data, cached := iter.index.readCached(iter.bucketIndex)
+	iter.index.bucketLk.RUnlock()
 	if cached {
 		// Add the size prefix to the record data.
 		newData := make([]byte, len(data)+sizePrefixSize)
